@@ -14,12 +14,17 @@
 (*   policy   "edf" "fifo" "lsf" "ilp" "ts_gurobi" "ts_cplex" "z3" "clockwork"*)
 (*   conv     the policy's planning convention (DESIGN 7), named constants:   *)
 (*            gap      0: a task occupies start <= x < start + rt (a resource *)
-(*                        freed at x is reusable at x: TetriSched, greedy),   *)
-(*                     1: start <= x <= start + rt (ILP, Z3: closed intervals)*)
+(*                        freed at x is reusable at x - the simulator's own   *)
+(*                        reading: TetriSched, greedy, Clockwork, Z3),        *)
+(*                     1: start <= x <= start + rt (ILP: closed intervals,    *)
+(*                        s1 >= s2 + rt2 + 1)                                 *)
 (*            instants "now":    capacity is planned at the invocation time   *)
 (*                               (and the starts of the new placements) only  *)
 (*                     "starts": at every start point of a running /          *)
 (*                               scheduled / newly placed interval            *)
+(*            plans    "kept": the plan of a SCHEDULED task that the call     *)
+(*                     does not re-decide keeps holding its worker;           *)
+(*                     "ignored": only the live cluster counts (greedy)       *)
 (*            startLB  new placements start at now + startLB or later (side)  *)
 (*            grid     new placements start at now + k * grid (side clause)   *)
 (*   now      invocation time                                                *)
@@ -35,8 +40,9 @@
 (*   decs     sequence of [kind, t, placed, pool, wk, sd, tm]; kind 1 evict,  *)
 (*            2 load, 3 cancel, 4 place; wk 0 = worker left to the pool,      *)
 (*            -1 = not a worker of that pool; sd = [dem, rt, bs, bid] with    *)
-(*            rt -1 = no strategy reported; bid # 0: members of one batch     *)
-(*            (they share one allocation)                                    *)
+(*            rt -1 = no strategy reported (then *some* strategy of the task   *)
+(*            must make the plan fit); bid # 0: members of one batch (they     *)
+(*            share one allocation)                                          *)
 (*   pre/post [ts, cl] full projection of task states / plans and of the live *)
 (*            cluster (per-instance availability, placed tasks, allocations)  *)
 (*                                                                          *)
@@ -142,8 +148,12 @@ RunItems0(c) ==
                          FALSE, c.cluster[p][w].occ[j].bid)
                      : j \in 1..Len(c.cluster[p][w].occ)} : w \in WorkerIds(c, p)} : p \in PoolIds(c)}
 
+\* conv.plans = "ignored": the policy plans the invocation instant on the live cluster
+\* only (it never leaves a task SCHEDULED for later itself); plans that are still
+\* pending then are the simulator's to retry (WORKER_NOT_READY), not its to respect
 KeptPlans(c) ==
-    {t \in TaskIds(c) : St(c, t) = SCHEDULED /\ c.tasks[t].plan.pool \in PoolIds(c) /\ DecsOf(c, t) = {}}
+    IF c.conv.plans = "ignored" THEN {}
+    ELSE {t \in TaskIds(c) : St(c, t) = SCHEDULED /\ c.tasks[t].plan.pool \in PoolIds(c) /\ DecsOf(c, t) = {}}
 PlanItems0(c) ==
     {Item0(<<2, t, 0, 0>>, t, c.tasks[t].plan.pool, c.tasks[t].plan.wk,
            <<Alt(c.tasks[t].plan.sd.dem, c.tasks[t].plan.sd.rt)>>, c.tasks[t].plan.tm, FALSE, c.tasks[t].plan.sd.bid)
@@ -272,16 +282,15 @@ Offenders(cl, c) ==
 CapacityCirc(c) ==
     UNION {LET I0 == PoolItems0(c, p)
            IN  IF PoolOffenders(c, p) = {} THEN {}
-               ELSE IF ~Determined(c, I0)
-                    THEN (IF \E it \in I0 : it.wk = 0 THEN {"pool_chosen_workers"} ELSE {})
-                         \cup (IF MultiKeys(I0) # {} THEN {"no_strategy_reported"} ELSE {})
+               ELSE IF \E it \in I0 : it.wk = 0 THEN {"pool_chosen_workers"}
                ELSE LET I   == Conc(c, I0, AnyChoice(I0))
                         asg == CHOOSE a \in Assignments(c, I, p) : TRUE
-                    IN  UNION {UNION {UNION {
-                            IF Over(c, I, asg, p, w, x, n)
-                            THEN {CASE it.key[1] = 1 -> "running" [] it.key[1] = 2 -> "kept_plan" [] OTHER -> "new"
-                                    : it \in {y \in ActiveOn(I, asg, w, x) : DemQ(y.dem, n) > 0}}
-                            ELSE {} : n \in ResNames(c, I, p)} : x \in Instants(c, I)} : w \in WorkerIds(c, p)}
+                        K   == UNION {UNION {UNION {
+                                 IF Over(c, I, asg, p, w, x, n)
+                                 THEN {CASE it.key[1] = 1 -> "running" [] it.key[1] = 2 -> "kept_plan" [] OTHER -> "new"
+                                         : it \in {y \in ActiveOn(I, asg, w, x) : DemQ(y.dem, n) > 0}}
+                                 ELSE {} : n \in ResNames(c, I, p)} : x \in Instants(c, I)} : w \in WorkerIds(c, p)}
+                    IN  IF K = {} THEN {"no_strategy_reported"} ELSE K
            : p \in PoolIds(c)}
 
 Circ(cl, c) ==
@@ -368,7 +377,7 @@ SanityTasks ==
        Tk(VIRTUAL, -1, <<Str(1, 2)>>, NoPlan, 2) >>
 SanityCluster ==
     << << Wkr(2, 1, <<[t |-> 1, dem |-> Gpu(1), fin |-> 13, bid |-> 0]>>), Wkr(1, 1, <<>>) >> >>
-Conv(gap, inst, lb) == [gap |-> gap, instants |-> inst, startLB |-> lb, grid |-> 1]
+Conv(gap, inst, lb) == [gap |-> gap, instants |-> inst, plans |-> "kept", startLB |-> lb, grid |-> 1]
 SanityCall(policy, conv, decs) ==
     WithSnap([id |-> 0, policy |-> policy, conv |-> conv, now |-> 10, raised |-> "", offered |-> <<3, 4>>,
               tasks |-> SanityTasks, cluster |-> SanityCluster, decs |-> decs, pre |-> <<>>, post |-> <<>>])
@@ -420,6 +429,11 @@ SanityOK ==
     /\ ValidDecision([GoodEdf EXCEPT !.decs = <<Place(4, 1, 1, Sd(1, 2), 10), Place(3, 1, 2, Sd(1, 6), 10)>>])
     /\ FailsExactly([GoodEdf EXCEPT !.conv = Conv(0, "starts", 0),
                                     !.decs = <<Place(4, 1, 1, Sd(1, 2), 10), Place(3, 1, 2, Sd(1, 6), 10)>>], {"C10.capacity"})
+    \*     the instant-only policies are judged on the live cluster: pending plans are not theirs to respect
+    /\ ValidDecision([GoodEdf EXCEPT !.conv.plans = "ignored", !.decs = <<Place(4, 1, 2, Sd(1, 2), 10), Place(3, 1, 2, Sd(1, 6), 12)>>])
+    /\ FailsExactly([GoodEdf EXCEPT !.decs = <<Place(4, 1, 2, Sd(1, 2), 10), Place(3, 1, 2, Sd(1, 6), 12)>>], {"C10.capacity"})
+    /\ ValidDecision([GoodEdf EXCEPT !.conv.plans = "ignored", !.tasks[2].plan.tm = 10, !.decs = <<Place(4, 1, 2, Sd(1, 2), 10), Unplaced(3)>>])
+    /\ FailsExactly([GoodEdf EXCEPT !.tasks[2].plan.tm = 10, !.decs = <<Place(4, 1, 2, Sd(1, 2), 10), Unplaced(3)>>], {"C10.capacity"})
     \*     an over-commitment that exists before the call is not charged to an innocent answer
     /\ ValidDecision([GoodSlots EXCEPT !.tasks[3] = Tk(SCHEDULED, 9, <<Str(1, 6)>>, [pool |-> 1, wk |-> 2, sd |-> Sd(1, 6), tm |-> 13], 6),
                                        !.offered = <<4>>, !.decs = <<Place(4, 1, 2, Sd(1, 2), 10)>>])
